@@ -115,4 +115,11 @@ def families(tier, seed):
                                            rng, tier, n_ssrc=1, steps=(100 if tier == "quick" else 700),
                                            common_roc=rng.choice([1, 7, 0x1234, 0xfffe]), damaged=0.25)[0])
                                       for k in range(8 if tier == "quick" else 60)],
+                   monitor=lambda s, c: __import__("lib.apigen", fromlist=["x"]).replay_monitor(s, c, False)),
+            # the same histories with srtp_update (unchanged policies) on both sides in between: a re-key keeps ROC and s_l, so
+            # sender and receiver stay on the same index, in particular when it happens at ROC >= 1 with s_l above 2^15
+            Family("api-rekey", [(f"rekey-{k}", __import__("lib.apigen", fromlist=["x"]).replay_history(
+                                       rng, tier, n_ssrc=rng.choice([1, 2]), steps=(120 if tier == "quick" else 700),
+                                       common_roc=rng.choice([None, 1, 1, 0x1234]), rekey=0.04)[0])
+                                 for k in range(10 if tier == "quick" else 60)],
                    monitor=lambda s, c: __import__("lib.apigen", fromlist=["x"]).replay_monitor(s, c, False))]
